@@ -126,16 +126,33 @@ def _cases(tier, rng):
         q += 1
         ax = rng.choice(axes)
         yield {"prog": prog, "axis": ax, "seed": rng.randrange(10**6), "storage": rng.choice(("file_array", "dict")),
-               "mode": rng.choice(("fixed", "fixed", "learners", "learners-split")),
+               "mode": rng.choice(("fixed", "fixed", "learners", "learners-split", "learners-fixed")),
+               # functions whose resources are evaluated per element get one learner per element
+               "element_scope": rng.random() < 0.4,
                "stop_after": rng.choice((None, None, "first", "last"))}
 
 
-def _run_part(p, prog, folder, storage, fixed, first):
+def _run_part(p, prog, folder, storage, fixed, first, via_learners=False, rng=None):
     log: list = []
     progs.set_log(log)
     try:
-        res = p.map(progs.real_inputs(prog), run_folder=folder, parallel=False, storage=storage,
-                    fixed_indices=fixed, cleanup=first, **progs.map_kwargs(prog))
+        if via_learners:
+            # the same piece through the learners of create_learners(fixed_indices=...), generation by generation
+            from adaptive import runner
+            from pipefunc.map.adaptive import create_learners
+            ld = create_learners(p, progs.real_inputs(prog), folder, storage=storage, fixed_indices=fixed,
+                                 cleanup=first, **progs.map_kwargs(prog))
+            for gens in ld.values():
+                for gen in gens:
+                    batch = list(gen)
+                    if rng is not None:
+                        rng.shuffle(batch)
+                    for lp in batch:
+                        runner.simple(lp.learner)
+            res = None
+        else:
+            res = p.map(progs.real_inputs(prog), run_folder=folder, parallel=False, storage=storage,
+                        fixed_indices=fixed, cleanup=first, **progs.map_kwargs(prog))
     finally:
         progs.set_log(None)
     return res, log
@@ -153,7 +170,14 @@ def _check(case):
     bad = []
     try:
         p = progs.build_pipeline(prog)
-        if case["mode"].startswith("learners"):
+        if case.get("element_scope") and case["mode"].startswith("learners"):
+            for f in p.functions:
+                if f.mapspec is not None and rng.random() < 0.7:
+                    f.resources_scope = "element"
+        via = case["mode"] == "learners-fixed"
+        if via:
+            storage = "file_array"
+        if case["mode"].startswith("learners") and not via:
             return _check_learners(case, p, prog, folder, want, calls, rng)
         # ---- invalid requests are rejected before any user call ----
         for what, fixed in (("unknown-axis", {"no_such_axis": 0}), ("out-of-range", {ax: size + 3})):
@@ -173,7 +197,7 @@ def _check(case):
             return bad  # arrays with never-named axes: fixed_indices is not exercised further (stated bound)
         # ---- partition the axis ----
         parts = random_partition(rng, size)
-        if case.get("stop_after") is not None and len(parts) > 1:
+        if case.get("stop_after") is not None and len(parts) > 1 and not via:
             # only the first piece(s), then the run is completed by one full call: its *returned* arrays are the whole's
             parts = parts[-1:] if case["stop_after"] == "last" else parts[:1]
             try:
@@ -193,9 +217,9 @@ def _check(case):
         for n_, part in enumerate(parts):
             sel = selected(part, size)
             try:
-                res, log = _run_part(p, prog, folder, storage, {ax: part}, n_ == 0)
+                res, log = _run_part(p, prog, folder, storage, {ax: part}, n_ == 0, via_learners=via, rng=rng)
             except Exception as e:  # noqa: BLE001
-                bad.append(f"part {part!r} raised {type(e).__name__}: {str(e)[:150]}")
+                bad.append(f"part {part!r}{' (learners)' if via else ''} raised {type(e).__name__}: {str(e)[:150]}")
                 return bad
             expect = []
             for fname, tag, where in call_idx:
@@ -290,7 +314,8 @@ def _check_learners(case, p, prog, folder, want, calls, rng):
 
 def _describe(case):
     return {"program": progs.describe(case["prog"]), "axis": case["axis"], "seed": case["seed"],
-            "storage": case["storage"], "mode": case["mode"], "sizes": case["prog"]["sizes"]}
+            "storage": case["storage"], "mode": case["mode"], "sizes": case["prog"]["sizes"],
+            "element_scope": bool(case.get("element_scope"))}
 
 
 def bounded_checks():
